@@ -15,10 +15,23 @@ package config
 //@   assigns nothing
 //@   ensures [hostname-known] isnil(result1)
 
+//@ func DeserializeOptions
+//@   loop 1 invariant [options] options != nil
+//@   ensures [map-made] result0 != nil
+
+// ---- options on the wire (C12) ---------------------------------------------------------------
+// The client renders max / before / after as decimals and the three mode flags
+// as "true"; the server reads each k=v item back (toInt is the value of a
+// string of decimal digits, -1 otherwise).
 //@ func setOption
 //@   requires [ptrs] ltx != nil && options != nil
 //@   assigns *ltx, *options
 //@   ensures [map-kept] result0 == options
-//@ func DeserializeOptions
-//@   loop 1 invariant [options] options != nil
-//@   ensures [map-made] result0 != nil
+//@   ensures [max] implies(key == "max" && len(val) <= 18 && toInt(val) >= 0, isnil(result1) && ltx.MaxCount == toInt(val) && ltx.BeforeContext == old(ltx.BeforeContext) && ltx.AfterContext == old(ltx.AfterContext))
+//@   ensures [before] implies(key == "before" && len(val) <= 18 && toInt(val) >= 0, isnil(result1) && ltx.BeforeContext == toInt(val) && ltx.MaxCount == old(ltx.MaxCount) && ltx.AfterContext == old(ltx.AfterContext))
+//@   ensures [after] implies(key == "after" && len(val) <= 18 && toInt(val) >= 0, isnil(result1) && ltx.AfterContext == toInt(val) && ltx.MaxCount == old(ltx.MaxCount) && ltx.BeforeContext == old(ltx.BeforeContext))
+//@   ensures [mode-options] implies(key != "max" && key != "before" && key != "after", isnil(result1) && has(options, key) && options[key] == val && ltx.MaxCount == old(ltx.MaxCount) && ltx.BeforeContext == old(ltx.BeforeContext) && ltx.AfterContext == old(ltx.AfterContext))
+//@ func (*Args).SerializeOptions
+//@   loop 1 invariant [values-encoded] implies(a.LContext.MaxCount > 0, has(options, "max") && options["max"] == itoa(a.LContext.MaxCount)) && implies(a.LContext.BeforeContext > 0, has(options, "before") && options["before"] == itoa(a.LContext.BeforeContext)) && implies(a.LContext.AfterContext > 0, has(options, "after") && options["after"] == itoa(a.LContext.AfterContext))
+//@   loop 1 invariant [modes-encoded] has(options, "plain") == a.Plain && has(options, "quiet") == a.Quiet && has(options, "serverless") == a.Serverless && implies(a.Plain, options["plain"] == "true") && implies(a.Quiet, options["quiet"] == "true") && implies(a.Serverless, options["serverless"] == "true")
+//@   loop 1 invariant [nothing-else] implies(a.LContext.MaxCount == 0, !has(options, "max")) && implies(a.LContext.BeforeContext == 0, !has(options, "before")) && implies(a.LContext.AfterContext == 0, !has(options, "after"))
